@@ -177,15 +177,19 @@ class Consumer(object):
     """Iterates a real StreamingDecoder over a stream double, one next() per poll."""
 
     def __init__(self, dec_mod, stream, spec, dec_kw, cid=0, trace=None, prewrap=False,
-                 raw=None):
+                 raw=None, buffered=None):
         from pyasn1.codec import streaming
         self.cid = cid
         self.trace = trace if trace is not None else []
         self.stream = stream           # the double (for counters)
         self.substrate = stream
         self.wrapper = None
+        if buffered:
+            # the standard library's buffered reader between the decoder and the non-blocking double
+            import io as _io
+            self.substrate = _io.BufferedReader(streams.RawAdapter(stream), buffer_size=buffered)
         if prewrap:
-            self.wrapper = streaming.CachingStreamWrapper(stream)
+            self.wrapper = streaming.CachingStreamWrapper(self.substrate)
             self.substrate = self.wrapper
         self.decoder = dec_mod.StreamingDecoder(self.substrate, asn1Spec=spec, **dec_kw)
         self.it = iter(self.decoder)
